@@ -326,8 +326,16 @@ package state
 //@ ensures[mismatch-noop] old(idxVal("connect-ca-roots")) != cidx ==> (forall k string :: T_connect_ca_roots(k) == old(T_connect_ca_roots(k))) && (forall t string :: T_index(t) == old(T_index(t)))
 //@ ensures[applied-index] err == nil && old(idxVal("connect-ca-roots")) == cidx ==> idxVal("connect-ca-roots") == idx
 //@ ensures[frame-index] forall t string :: strLower(t) != "connect-ca-roots" ==> T_index(t) == old(T_index(t))
+//@ ensures[exactly-one-active-root] err == nil ==> exists j int :: 0 <= j && j < len(rs) && rs[j].Active && forall i int :: 0 <= i && i < len(rs) && rs[i].Active ==> i == j
+//@ ensures[stored-roots-are-the-given-set] err == nil && old(idxVal("connect-ca-roots")) == cidx ==> forall k string :: T_connect_ca_roots(k) != nil ==> exists j int :: 0 <= j && j < len(rs) && rs[j] == T_connect_ca_roots(k)
 //@ modifies T.connect-ca-roots, T.index, structs.CARoot.RaftIndex
-//@ loop 1 invariant true
+//@ loop 1 invariant[count-zero] activeCount >= 0 && (activeCount == 0 ==> forall j int :: 0 <= j && j < range1_idx ==> !rs[j].Active)
+//@ loop 1 invariant[count-one] activeCount == 1 ==> exists j int :: 0 <= j && j < range1_idx && rs[j].Active && forall i int :: 0 <= i && i < range1_idx && rs[i].Active ==> i == j
+//@ loop 1 invariant[count-many] activeCount >= 2 ==> exists i int, j int :: 0 <= i && i < j && j < range1_idx && rs[i].Active && rs[j].Active
+//@ loop 2 invariant[active-flags-kept] forall j int :: 0 <= j && j < len(rs) ==> rs[j].Active == old(rs[j].Active)
+//@ loop 2 invariant[tables-untouched] (forall k string :: T_connect_ca_roots(k) == old(T_connect_ca_roots(k))) && (forall t string :: T_index(t) == old(T_index(t)))
+//@ loop 3 invariant[only-given-roots] forall k string :: T_connect_ca_roots(k) != nil ==> exists j int :: 0 <= j && j < range3_idx && rs[j] == T_connect_ca_roots(k)
+//@ loop 3 invariant[index-untouched] forall t string :: T_index(t) == old(T_index(t))
 
 //@ func Store.CARootSetCAS
 //@ props C10 C12
